@@ -589,3 +589,12 @@ Definition fuel_sufficient_full : Prop :=
     wf_grammar g rules idx = true ->
     exists c, forall r text, parse g (c * (String.length text + 1) * List.length rules) r text <> OutOfFuel.
 End PegLayer.
+
+(* text -> pairs (Peg.v on gen/Grammar.v) -> items (PegToItems.v) -> AST (Pratt.v): ONE executable model of
+   `parse` + `pairs_to_expr`; the PARSE-text stream compares it with the real parser on every generated and
+   mutated program text.  An evaluated instance (blanks, a comment, two statements): *)
+Require Blots.PegToItems.
+Example peg_text_to_ast :
+  Blots.PegToItems.parse_text ("a  +  b*c  // note" ++ String (Ascii.ascii_of_nat 10) "output y = [1, 2]")
+  = "E (EBin Add (EId (hx ""61"")) (EBin Multiply (EId (hx ""62"")) (EId (hx ""63"")))) ;; O (EAssign (hx ""79"") (EList [(Cm [] (ENum (nb 0x3ff0000000000000)) None); (Cm [] (ENum (nb 0x4000000000000000)) None)]))".
+Proof. vm_compute. reflexivity. Qed.
